@@ -512,6 +512,8 @@ def _deserialize_from_path(ext_to_routine, path, type_name):
 
 def _is_number(obj):
     if isinstance(obj, numbers.Number): return True
+    # A class (e.g. `int` itself) has the attributes tested below but is not a number
+    elif isinstance(obj, type): return False
     # The extra check is for classes that behave like numbers, such as those
     # found in numpy, gmpy2, etc.
     elif (hasattr(obj, '__int__') and hasattr(obj, '__add__')): return True
